@@ -141,6 +141,7 @@ class Interp:
         self.summaries = summaries
         self.ctor_names = set(ctor_names)
         self.mutations = []
+        self.attr_stores = []     # (target, stmt, value roots)
         self.returns = []         # (node, roots)
         self.calls = []           # (call node, receiver roots, arg roots)
         self.dead = []            # statements folded away
@@ -340,6 +341,8 @@ class Interp:
                     self.bind_target(t, rts)
                 else:
                     self.store(t, st, "store")
+                    if isinstance(t, ast.Attribute):
+                        self.attr_stores.append((t, st, rts))
             return
         if isinstance(st, ast.AnnAssign):
             if st.value is not None:
